@@ -39,7 +39,7 @@ class Unit:
                  assumed=(), loops=False, unwind=None, unwindset=(), flags=(), timeout=600, tier="quick",
                  bounded=None, functions=(), defs=(), branch=False, noconv=True, closed_by=None,
                  min_obl=1, note="", solver=None, mem_gb=12, nondet_static=False, slice_formula=False,
-                 replay=None, extra_instrument=()):
+                 replay=None, extra_instrument=(), loop_contracts=None):
         self.name = name; self.props = list(props); self.harness = harness; self.entry = entry
         self.cfg = cfg; self.verify = verify; self.enforce = list(enforce); self.replace = list(replace)
         self.assumed = list(assumed); self.loops = loops; self.unwind = unwind; self.unwindset = list(unwindset)
@@ -48,6 +48,9 @@ class Unit:
         self.noconv = noconv; self.closed_by = closed_by; self.min_obl = min_obl; self.note = note
         self.solver = solver; self.mem_gb = mem_gb; self.nondet_static = nondet_static
         self.slice_formula = slice_formula; self.replay = replay; self.extra_instrument = list(extra_instrument)
+        self.loop_contracts = loop_contracts or {}
+        if self.loop_contracts:
+            self.loops = True
 
 
 def _limits(mem_gb):
@@ -102,7 +105,10 @@ def instrument_cmds(u, wd):
     for extra in u.extra_instrument:
         cmds.append(["goto-instrument"] + extra + [src, "ux.gb"])
         src = "ux.gb"
-    cmd = ["goto-instrument", "--dfcc", u.entry]
+    cmd = ["goto-instrument"]
+    if u.loop_contracts:
+        cmd += ["--loop-contracts-file", "loops.json"]
+    cmd += ["--dfcc", u.entry]
     for f in u.enforce:
         cmd += ["--enforce-contract", f]
     for g in u.replace:
@@ -113,6 +119,74 @@ def instrument_cmds(u, wd):
     cmds.append(cmd)
     return cmds
 
+
+
+def write_loop_contracts(u, wd, src):
+    """Loop contracts live in /verif (unit table), not in /repo: they are handed to goto-instrument through
+    --loop-contracts-file, keyed by function and loop ordinal.  Local variable names used in the clauses are
+    resolved against the goto binary's symbol table (fn::name for parameters, fn::<block>::name for locals);
+    an ambiguous or unknown local name makes the unit undecided (exit 2), never a violation."""
+    rc, so, se, t = sh(["goto-instrument", "--show-symbol-table", "--json-ui", src], 300, wd)
+    syms = set()
+    try:
+        for m in json.loads(so.decode(errors="replace")):
+            if isinstance(m, dict) and "symbolTable" in m:
+                syms = set(m["symbolTable"].keys())
+    except Exception as e:
+        return "cannot read symbol table: %r" % e
+    # loops may be named by ordinal (int) or - robust against edits elsewhere in the function - by a fragment
+    # of the source line of the loop statement, e.g. "for (i = 0; i < n; i++)"
+    loopinfo = {}
+    if any(isinstance(k, str) for loops in u.loop_contracts.values() for k in loops):
+        rc, so, se, t = sh(["goto-instrument", "--show-loops", src], 300, wd)
+        for m in re.finditer(r"Loop (\S+)\.(\d+):\s*\n\s*file (\S+) line (\d+) function (\S+)", so.decode(errors="replace")):
+            loopinfo.setdefault(m.group(1), []).append((int(m.group(2)), m.group(3), int(m.group(4))))
+    funcs = []
+    for fn, loops0 in u.loop_contracts.items():
+        if fn not in syms:
+            return "loop contract names unknown function %s" % fn
+        loops = {}
+        for key, c in loops0.items():
+            if isinstance(key, str):
+                hits = []
+                for (lid, f, ln) in loopinfo.get(fn, []):
+                    try:
+                        line = open(f, errors="replace").read().splitlines()[ln - 1]
+                    except Exception:
+                        line = ""
+                    if key in line:
+                        hits.append(lid)
+                if len(hits) != 1:
+                    return "loop contract %s: source fragment %r matches %d loops" % (fn, key, len(hits))
+                loops[hits[0]] = c
+            else:
+                loops[key] = c
+        entries = []
+        for lid, c in sorted(loops.items()):
+            text = " ".join(str(c.get(k, "")) for k in ("assigns", "invariants", "decreases"))
+            idents = set(re.findall(r"[A-Za-z_][A-Za-z0-9_]*", text))
+            smap = dict(c.get("symbol_map", {}))
+            for ident in sorted(idents):
+                if ident in smap or ident.startswith("__CPROVER"):
+                    continue
+                cands = [x for x in syms if x.startswith(fn + "::") and x.endswith("::" + ident) and "$" not in x]
+                if len(cands) == 1:
+                    smap[ident] = cands[0]
+                elif len(cands) > 1:
+                    return "loop contract %s.%s: local name %s is ambiguous (%s); give symbol_map" % (fn, lid, ident, ", ".join(sorted(cands)))
+            def pp(x):   # the clause parser has no preprocessor
+                return re.sub(r"\bNULL\b", "((void*)0)", x)
+            e = {"loop_id": str(lid), "invariants": pp(c["invariants"])}
+            if c.get("assigns"):
+                e["assigns"] = pp(c["assigns"])
+            if c.get("decreases"):
+                e["decreases"] = pp(c["decreases"])
+            if smap:
+                e["symbol_map"] = ";".join("%s,%s" % kv for kv in sorted(smap.items()))
+            entries.append(e)
+        funcs.append({fn: entries})
+    json.dump({"functions": funcs}, open(os.path.join(wd, "loops.json"), "w"), indent=1)
+    return None
 
 def cbmc_cmd(u, extra=()):
     cmd = ["cbmc", "--object-bits", "12"] + [f for f in CHECK_FLAGS if not (u.noconv and f == "--conversion-check")]
@@ -175,6 +249,11 @@ def run_unit(u, keep=False):
     if rc != 0:
         r["reason"] = "goto-cc failed: " + (se.decode(errors="replace")[-1500:])
         return r
+    if u.loop_contracts:
+        err = write_loop_contracts(u, wd, "ub.gb" if False else "u.gb")
+        if err:
+            r["reason"] = err
+            return r
     for c in instrument_cmds(u, wd):
         r["cmds"].append(" ".join(c))
         rc, so, se, t = sh(c, 600, wd)
